@@ -280,26 +280,61 @@ func runCase(line []byte, out *json.Encoder) error {
 		}
 		return ioRoundTrip(v, t, writerSimple, readerOpts)
 	}
-	for i, a := range args {
-		var t reflect.Type
-		name := "interface {}"
+	wantT := make([]reflect.Type, len(args))
+	wantN := make([]string, len(args))
+	for i := range args {
+		wantN[i] = "interface {}"
 		if i < len(c.Want) && c.Want[i] >= 0 {
-			t = b.types[c.Want[i]]
-			name = t.String()
-		}
-		o, e := rt(a, t, c.Copts.Simple, c.Sopts)
-		if e != "" {
-			obs.OrArgs = append(obs.OrArgs, tv{Ty: name, Err: e})
-		} else {
-			obs.OrArgs = append(obs.OrArgs, tv{Ty: name, V: unfoldI(o), Eq: equalTo(b.args[i], o)})
+			wantT[i] = b.types[c.Want[i]]
+			wantN[i] = wantT[i].String()
 		}
 	}
-	for i, h := range c.Hdrs {
-		o, e := rt(ifaceOf(b.hdrs[i]), nil, c.Copts.Simple, c.Sopts)
-		if e != "" {
-			obs.OrHdrs = append(obs.OrHdrs, kv{h.K, "ERR " + e})
+	var joint []interface{}
+	var jerrs []string
+	if c.Codec != "jsonrpc" && len(args) > 0 {
+		joint, jerrs = ioTupleRoundTrip(args, wantT, c.Copts.Simple, c.Sopts)
+	}
+	for i, a := range args {
+		e := tv{Ty: wantN[i]}
+		so, se := rt(a, wantT[i], c.Copts.Simple, c.Sopts)
+		if se != "" {
+			e.SoloErr = se
 		} else {
-			obs.OrHdrs = append(obs.OrHdrs, kv{h.K, unfoldI(o)})
+			e.Solo, e.SoloEq = unfoldI(so), equalTo(b.args[i], so)
+		}
+		if joint == nil {
+			// JSON-RPC: every parameter makes its own trip
+			e.V, e.Eq, e.Err = e.Solo, e.SoloEq, e.SoloErr
+		} else if jerrs[i] != "" {
+			e.Err = jerrs[i]
+		} else {
+			e.V, e.Eq = unfoldI(joint[i]), equalTo(b.args[i], joint[i])
+		}
+		obs.OrArgs = append(obs.OrArgs, e)
+	}
+	if len(c.Hdrs) > 0 {
+		if c.Codec == "jsonrpc" {
+			for i, h := range c.Hdrs {
+				o, e := rt(ifaceOf(b.hdrs[i]), nil, c.Copts.Simple, c.Sopts)
+				if e != "" {
+					obs.OrHdrs = append(obs.OrHdrs, kv{h.K, "ERR " + e})
+				} else {
+					obs.OrHdrs = append(obs.OrHdrs, kv{h.K, unfoldI(o)})
+				}
+			}
+		} else {
+			hm := map[string]interface{}{}
+			for i, h := range c.Hdrs {
+				hm[unhexs(h.K)] = ifaceOf(b.hdrs[i])
+			}
+			om, e := ioHeadersRoundTrip(hm, c.Copts.Simple, c.Sopts)
+			for _, h := range c.Hdrs {
+				if e != "" {
+					obs.OrHdrs = append(obs.OrHdrs, kv{h.K, "ERR " + e})
+				} else {
+					obs.OrHdrs = append(obs.OrHdrs, kv{h.K, unfoldI(om[unhexs(h.K)])})
+				}
+			}
 		}
 	}
 
@@ -420,16 +455,34 @@ func runCase(line []byte, out *json.Encoder) error {
 			}
 		}
 	case len(rts) >= 2:
+		vals := make([]interface{}, len(b.res))
+		for i, r := range b.res {
+			vals[i] = ifaceOf(r)
+		}
+		var joint []interface{}
+		var jerrs []string
+		if c.Codec != "jsonrpc" && len(vals) >= 2 {
+			joint, jerrs = ioTupleRoundTrip(vals, rts, c.Sopts.Simple, c.Copts)
+		}
 		for i, r := range b.res {
 			if i >= len(rts) {
 				break
 			}
-			o, e := rt(ifaceOf(r), rts[i], c.Sopts.Simple, c.Copts)
-			if e != "" {
-				obs.OrRes = append(obs.OrRes, tv{Ty: rts[i].String(), Err: e})
+			e := tv{Ty: rts[i].String()}
+			so, se := rt(ifaceOf(r), rts[i], c.Sopts.Simple, c.Copts)
+			if se != "" {
+				e.SoloErr = se
 			} else {
-				obs.OrRes = append(obs.OrRes, tv{Ty: rts[i].String(), V: unfoldI(o), Eq: equalTo(r, o)})
+				e.Solo, e.SoloEq = unfoldI(so), equalTo(r, so)
 			}
+			if joint == nil {
+				e.V, e.Eq, e.Err = e.Solo, e.SoloEq, e.SoloErr
+			} else if jerrs[i] != "" {
+				e.Err = jerrs[i]
+			} else {
+				e.V, e.Eq = unfoldI(joint[i]), equalTo(r, joint[i])
+			}
+			obs.OrRes = append(obs.OrRes, e)
 		}
 	}
 	for i, h := range c.Rhdrs {
@@ -475,19 +528,20 @@ func build(c *c07Case) (*built, error) {
 		}
 		b.args = append(b.args, v)
 	}
-	for _, h := range c.Hdrs {
-		v, err := mk(h.V)
-		if err != nil {
-			return nil, fmt.Errorf("hdr: %v", err)
-		}
-		b.hdrs = append(b.hdrs, v)
-	}
+	// the same order as the generator's: a value may refer to a pointer defined by an earlier one
 	for _, r := range c.Res.Values {
 		v, err := mk(r)
 		if err != nil {
 			return nil, fmt.Errorf("res: %v", err)
 		}
 		b.res = append(b.res, v)
+	}
+	for _, h := range c.Hdrs {
+		v, err := mk(h.V)
+		if err != nil {
+			return nil, fmt.Errorf("hdr: %v", err)
+		}
+		b.hdrs = append(b.hdrs, v)
 	}
 	for _, h := range c.Rhdrs {
 		v, err := mk(h.V)
